@@ -3,6 +3,7 @@ package main
 import (
 	"fmt"
 	"go/token"
+	"go/types"
 	"strings"
 
 	"golang.org/x/tools/go/ssa"
@@ -14,7 +15,7 @@ func init() {
 		Explain: "Decided clauses: R1 every access to the shared cache state (manager.get/set/getRaw/setRaw/del, deleteKey, heap.put/remove/removeFirst, storedBytes) in the handler has the middleware mutex in its must-held set, " +
 			"locks are paired, c.Next() never runs under it; R2 a response is stored only past the gates: not no-store, method configured, cacheable status, Next(c) false, body within MaxBytes; " +
 			"R3 a hit is served only with an entry present, exp != 0, not expired, not no-cache, and the invalidator forces expiry; R4 heap.put / remove* are paired with the storedBytes adjustment by the same size; " +
-			"R5 every response-carrying field of the entry is written on store and read on hit. Not decided: wall-clock freshness (coarse timestamp), external storage semantics, container/heap invariants, deadlock freedom beyond R1.",
+			"R5 every response-carrying field of the entry is written on store and read on hit; R6 slots of the expiry heap are only permuted (never overwritten with a foreign value), appended only by pushInternal, and put takes its handle from a recycled slot or maxidx. Not decided: wall-clock freshness (coarse timestamp), external storage semantics, the heap order invariant of container/heap, deadlock freedom beyond R1.",
 		Assume: []string{"sync.RWMutex provides mutual exclusion", "cache state is only reachable through the closure's captured manager/heap/storedBytes"},
 		Run:    runC14,
 	})
@@ -365,6 +366,114 @@ func runC14(r *Run) {
 		}
 		r.atLeast("response-carrying fields", n, 5)
 	})
+	r.rule("R6", "heap handles are only permuted: a slot of indexedHeap.entries is overwritten only with another slot's value, so the handle left behind a removed entry survives until put recycles it (E10)", func() {
+		isEntrySlice := func(t types.Type) bool {
+			sl, ok := t.Underlying().(*types.Slice)
+			return ok && namedTypeName(sl.Elem()) == "heapEntry"
+		}
+		slotAddr := func(v ssa.Value) (*ssa.IndexAddr, bool) {
+			switch x := v.(type) {
+			case *ssa.IndexAddr:
+				return x, isEntrySlice(x.X.Type())
+			case *ssa.FieldAddr:
+				if ia, ok := x.X.(*ssa.IndexAddr); ok && isEntrySlice(ia.X.Type()) {
+					return ia, true
+				}
+			}
+			return nil, false
+		}
+		n, appends := 0, 0
+		r.P.AllFuncs(cachePkg, func(f *ssa.Function) {
+			for _, b := range f.Blocks {
+				for _, in := range b.Instrs {
+					if c, ok := in.(*ssa.Call); ok && calleeName(&c.Call) == "builtin:append" && isEntrySlice(c.Type()) {
+						appends++
+						r.check(strings.HasSuffix(f.String(), "indexedHeap).pushInternal"), "entries-append:"+short(f.String()), r.pos(in), "the only append to the entries slice is pushInternal (handle chosen by put)",
+							"entries are appended outside pushInternal: the handle ↔ position table is not updated")
+					}
+					st, ok := in.(*ssa.Store)
+					if !ok {
+						continue
+					}
+					_, isSlot := slotAddr(st.Addr)
+					if !isSlot {
+						continue
+					}
+					n++
+					fromSlot := false
+					if ld, ok := st.Val.(*ssa.UnOp); ok && ld.Op == token.MUL {
+						if ia, ok := ld.X.(*ssa.IndexAddr); ok && isEntrySlice(ia.X.Type()) {
+							fromSlot = true
+						}
+					}
+					_, whole := st.Addr.(*ssa.IndexAddr)
+					r.check(fromSlot && whole, fmt.Sprintf("entries-slot-store:%s#%d", short(f.String()), n), r.pos(in), "a heap slot is overwritten with the value of another heap slot (swap)",
+						"a heap slot is overwritten with a value that is not another slot's: the handle (idx) stored there is lost, and put — which recycles the handle of the slot just past the end — hands out a handle that a live entry still owns; a later expiry or invalidation then removes the wrong entry")
+				}
+			}
+		})
+		r.atLeast("slot stores (Swap)", n, 2)
+		r.atLeast("appends", appends, 1)
+		// put takes the recycled handle from a slot, or a fresh one from maxidx
+		put := r.Fn(cachePkg, "(*indexedHeap).put")
+		var idxArg ssa.Value
+		for _, c := range callsMatching(put, false, nameHasSuffix("indexedHeap).pushInternal")) {
+			// the entry is built in place: find the store to its idx field
+			for _, fr := range fieldRefs(put) {
+				if fr.Write && fr.Name == "cache.heapEntry.idx" {
+					idxArg = fr.Val
+				}
+			}
+			_ = c
+		}
+		r.need(idxArg != nil, "put builds a heapEntry with an idx")
+		var leaves []ssa.Value
+		seenPhi := map[*ssa.Phi]bool{}
+		var walk func(v ssa.Value)
+		walk = func(v ssa.Value) {
+			if ph, ok := v.(*ssa.Phi); ok {
+				if seenPhi[ph] {
+					return
+				}
+				seenPhi[ph] = true
+				for _, e := range ph.Edges {
+					walk(e)
+				}
+				return
+			}
+			leaves = append(leaves, v)
+		}
+		walk(idxArg)
+		fromSlotOrMax := len(leaves) > 0
+		for _, leaf := range leaves {
+			if c, ok := leaf.(*ssa.Const); ok {
+				if k, ok := constInt(c); ok && k == 0 {
+					continue // the zero initialisation that both arms overwrite
+				}
+			}
+			if !handleSource(leaf, slotAddr) {
+				fromSlotOrMax = false
+			}
+		}
+		r.check(fromSlotOrMax, "put:handle-source", r.fpos(put), "the handle given to a new entry is a recycled slot handle or the next fresh one", "put hands out a handle that is neither recycled from a slot nor fresh")
+	})
+}
+
+func handleSource(v ssa.Value, slotAddr func(ssa.Value) (*ssa.IndexAddr, bool)) bool {
+	return dependsOn(v, func(v ssa.Value) bool {
+		if fa, ok := v.(*ssa.FieldAddr); ok {
+			if fv := fieldVar(fa.X.Type(), fa.Field); fv != nil {
+				if fv.Name() == "maxidx" {
+					return true
+				}
+				if fv.Name() == "idx" {
+					_, ok := slotAddr(fa)
+					return ok
+				}
+			}
+		}
+		return false
+	}) != nil
 }
 
 func cellAccessV(v ssa.Value, name string) (bool, ssa.Value, bool) {
